@@ -223,13 +223,9 @@ func (w *world) eval(line string) (out evalOut) {
 		out.impl = w.paramsText(g)
 		out.model = []string{"PARAMS " + m}
 	case "HYP":
-		// the named hypotheses of the Coq theorems, decided for this curve (parameters as the API reports them)
-		cc := c
-		func() {
-			defer func() { _ = recover() }()
-			cc = deriveRef(g)
-		}()
-		out.impl = hypothesisCheck(cc)
+		// the named hypotheses of the Coq theorems, decided for this curve's constants (which the PARAMS
+		// case ties to the model's CurveParams.v and to what the API reports)
+		out.impl = hypothesisCheck(c)
 		out.ref = "ok"
 	case "ADD", "SUB":
 		if !need(2) {
@@ -1014,8 +1010,19 @@ func main() {
 		res.Write(a.Out)
 		return
 	}
-	lines := generate(w, a.Seed, a.Tier, a.Search)
-	runCases(w, a, res, lines, "c")
+	func() {
+		// never die without a result: a panic while building cases (e.g. the generator of a curve has no
+		// affine coordinates any more) is itself a finding about the implementation
+		defer func() {
+			if r := recover(); r != nil {
+				res.Mismatch(vh.Mismatch{ID: "harness-panic", Kind: "corr", Key: "case-generation-panic",
+					Detail: fmt.Sprintf("panic while generating / running cases: %v", r), Case: "(case generation)",
+					What: "C14 correspondence could not be set up on this tree"})
+			}
+		}()
+		lines := generate(w, a.Seed, a.Tier, a.Search)
+		runCases(w, a, res, lines, "c")
+	}()
 	res.Write(a.Out)
 	fmt.Fprintf(os.Stderr, "c14: %d cases, %d mismatches\n", res.Evaluations, len(res.Mismatches))
 }
